@@ -133,10 +133,7 @@ fn op_keys(req: &Value) -> Value {
 	};
 	if !b(req, "raw_cursor") {
 		// a start cursor the CLI can reach: inside the text, as normal mode clamps it
-		let lb = v.current_buffer();
-		lb.set_cursor_clamp(true);
-		let c = lb.cursor.get();
-		lb.cursor.set(c);
+		v.current_buffer().settle_normal_cursor();
 	}
 	let keep_mode = b(req, "keep_mode");
 	let last_only = b(req, "last_only");
